@@ -179,32 +179,18 @@ pub fn run(run: &Run) {
         }
         true
     });
-    // ZWNJ between transparent runs of every length 0..=40 on both sides
-    run.par("zwnj_long_runs", true, |tid, n, l| {
-        let mut idx = 0usize;
-        for nb in 0..=40usize {
-            for na in 0..=40usize {
-                for (left, right) in [('\u{626}', '\u{626}'), ('\u{628}', '\u{627}'), ('a', '\u{626}'), ('\u{626}', 'a'), ('\u{94d}', 'a')] {
-                    idx += 1;
-                    if idx % n != tid {
-                        continue;
-                    }
-                    let mut s = String::new();
-                    s.push(left);
-                    s.extend(std::iter::repeat('\u{650}').take(nb));
-                    s.push('\u{200c}');
-                    s.extend(std::iter::repeat('\u{64e}').take(na));
-                    s.push(right);
-                    l.cases += 1;
-                    for c in [Class::Id, Class::Ff] {
-                        if let Err(v) = check(&c, &s, l) {
-                            run.violate(v);
-                            return;
-                        }
-                    }
-                }
+    // ZWNJ between transparent runs (0..=40 and around 64/128/256/512/1000/1024/4096), contextual families, counted words
+    let mut labels = super::pipe::zwnj_run_labels();
+    labels.extend(super::pipe::counted_word_labels());
+    labels.extend(super::pipe::PAYLOADS_FAMILIES.iter().map(|s| s.to_string()));
+    super::pipe::battery(run, "zwnj_long_runs", &labels, &|s, l| {
+        for c in [Class::Id, Class::Ff] {
+            if let Err(v) = check(&c, s, l) {
+                run.violate(v);
+                return false;
             }
         }
+        true
     });
     let mk_user = || {
         let alphabet: Vec<char> = "abcdelxyz".chars().chain([0xb7u32, 0x200c, 0x200d, 0x375, 0x5f3, 0x5f4, 0x30fb, 0x660, 0x6f0, 0x94d, 0x3b1, 0x5d0, 0x626, 0x627, 0x3042].iter().map(|c| char::from_u32(*c).unwrap())).collect();
